@@ -99,6 +99,64 @@ package conf
 //@   loop 0 modifies mapcells(kvMap)
 //@   safety [C17]
 //
+// The sub-domain and key listings: every listed name is the name of a child of the domain the path leads to (ghost
+// e.gnode) and of the right kind (sub-domain: node, key: leaf), and nothing is listed on error. The line listing is a
+// copy of the domain's recorded lines, in order. (The converse -- every child is listed, once -- needs counting over
+// the iteration and is not stated.)
+//@ func (*elem).getDomain
+//@   requires isElem(e) && wfTree()
+//@   modifies e.gnode
+//@   allocates
+//@   site getElem#0 ghostafter e.gnode = $ret0
+//@   ensures [C17] result1 != nil ==> len(result0) == 0
+//@   ensures [C17] result1 == nil ==> (forall j {result0[j]} :: (0 <= j && j < len(result0)) ==> (haskey(cast(e.gnode, "*elem").children, result0[j]) && cast(e.gnode, "*elem").children[result0[j]].kind == 0))
+//@   loop 0 invariant isElem(targetNode) && wfTree() && e.gnode == targetNode && err == nil
+//@   loop 0 invariant cap(domain) == 0 || loopfresh(0, domain)
+//@   loop 0 invariant [C17] forall j {domain[j]} :: (0 <= j && j < len(domain)) ==> (haskey(targetNode.children, domain[j]) && targetNode.children[domain[j]].kind == 0)
+//@   loop 0 modifies elems(domain)
+//@   safety [C17]
+//
+//@ func (*elem).getDomainKey
+//@   requires isElem(e) && wfTree()
+//@   modifies e.gnode
+//@   allocates
+//@   site getElem#0 ghostafter e.gnode = $ret0
+//@   ensures [C17] result1 != nil ==> len(result0) == 0
+//@   ensures [C17] result1 == nil ==> (forall j {result0[j]} :: (0 <= j && j < len(result0)) ==> (haskey(cast(e.gnode, "*elem").children, result0[j]) && cast(e.gnode, "*elem").children[result0[j]].kind == 1))
+//@   loop 0 invariant isElem(targetNode) && wfTree() && e.gnode == targetNode && err == nil
+//@   loop 0 invariant cap(domainKey) == 0 || loopfresh(0, domainKey)
+//@   loop 0 invariant [C17] forall j {domainKey[j]} :: (0 <= j && j < len(domainKey)) ==> (haskey(targetNode.children, domainKey[j]) && targetNode.children[domainKey[j]].kind == 1)
+//@   loop 0 modifies elems(domainKey)
+//@   safety [C17]
+//
+//@ func (*elem).getDomainLine
+//@   requires isElem(e) && wfTree()
+//@   modifies e.gnode
+//@   allocates
+//@   site getElem#0 ghostafter e.gnode = $ret0
+//@   ensures [C17] result1 != nil ==> len(result0) == 0
+//@   ensures [C17] result1 == nil ==> len(result0) == len(cast(e.gnode, "*elem").line)
+//@   ensures [C17] result1 == nil ==> (forall j {result0[j]} :: (0 <= j && j < len(result0)) ==> result0[j] == cast(e.gnode, "*elem").line[j])
+//@   safety [C17]
+//
+//@ func (*Conf).GetDomain
+//@   requires confOK(c)
+//@   noframe
+//@   allocates
+//@   safety [C17]
+//
+//@ func (*Conf).GetDomainKey
+//@   requires confOK(c)
+//@   noframe
+//@   allocates
+//@   safety [C17]
+//
+//@ func (*Conf).GetDomainLine
+//@   requires confOK(c)
+//@   noframe
+//@   allocates
+//@   safety [C17]
+//
 //@ func (*Conf).GetMap
 //@   requires confOK(c)
 //@   noframe
